@@ -158,7 +158,8 @@ def apply_fault(sb, kind, rnd):
     if kind == 7:
         open(ap, "wb").write(b"[1,2,3]"); return "json-array"
     if kind == 8:
-        j = json.loads(raw); j["format_version"] = 2 + rnd % 5; open(ap, "wb").write(json.dumps(j).encode()); return "format_version!=1"
+        j = json.loads(raw); j["format_version"] = [0, 2, 3, 7, 255, 65536, 4294967295, 0][rnd % 8]
+        open(ap, "wb").write(json.dumps(j).encode()); return f"format_version={j['format_version']}"
     if kind == 9:
         j = json.loads(raw); j["root_pair_hash"] = "0" * 64; open(ap, "wb").write(json.dumps(j).encode()); return "other-pair"
     if kind == 10:
@@ -228,7 +229,7 @@ def run(pid, tier, seed, rundir, model_run):
                     elif op[0] == "fault":
                         lab = apply_fault(sb, op[1], op[2])
                         if lab:
-                            history_txt.append(f"fault {lab}"); count("fault/" + lab.split("@")[0])
+                            history_txt.append(f"fault {lab}"); count("fault/" + lab.split("@")[0].split("=")[0])
                     elif op[0] == "bisync":
                         ta, tb, raw, trusted = h.observe()
                         da, db = digests(ta), digests(tb)
